@@ -346,10 +346,10 @@ inline long long do_kernel_call(TopologyKernel &m, const CallRec &c, bool *known
     if (op == "set_edge") { m.set_edge(EdgeHandle((int)c.a), VertexHandle(c.l.at(0)), VertexHandle(c.l.at(1))); return VOID; }
     if (op == "set_face") { m.set_face(FaceHandle((int)c.a), hes_of(c.l)); return VOID; }
     if (op == "set_cell") { m.set_cell(CellHandle((int)c.a), hfs_of(c.l)); return VOID; }
-    if (op == "delete_vertex") { m.delete_vertex(VertexHandle((int)c.a)); return VOID; }
-    if (op == "delete_edge") { m.delete_edge(EdgeHandle((int)c.a)); return VOID; }
-    if (op == "delete_face") { m.delete_face(FaceHandle((int)c.a)); return VOID; }
-    if (op == "delete_cell") { m.delete_cell(CellHandle((int)c.a)); return VOID; }
+    if (op == "delete_vertex") { auto it = m.delete_vertex(VertexHandle((int)c.a)); return it.valid() ? (long long)it->idx() : -1; }
+    if (op == "delete_edge") { auto it = m.delete_edge(EdgeHandle((int)c.a)); return it.valid() ? (long long)it->idx() : -1; }
+    if (op == "delete_face") { auto it = m.delete_face(FaceHandle((int)c.a)); return it.valid() ? (long long)it->idx() : -1; }
+    if (op == "delete_cell") { auto it = m.delete_cell(CellHandle((int)c.a)); return it.valid() ? (long long)it->idx() : -1; }
     if (op == "collect_garbage") { m.collect_garbage(); return VOID; }
     if (op == "swap_vertices") { m.swap_vertex_indices(VertexHandle((int)c.a), VertexHandle((int)c.b)); return VOID; }
     if (op == "swap_edges") { m.swap_edge_indices(EdgeHandle((int)c.a), EdgeHandle((int)c.b)); return VOID; }
